@@ -194,11 +194,24 @@ Fixpoint sset (f : string) (v : str) (sc : scalars) : scalars :=
 Definition sdel (f : string) (sc : scalars) : scalars :=
   filter (fun p => negb (String.eqb f (fst p))) sc.
 
-Definition cloned_child_fields : list string := cloned_ptr_fields ++ cloned_vec_fields.
-Definition subst_child_fields : list string := subst_ptr_fields ++ subst_vec_fields.
+Definition cloned_child_fields : list string := cloned_ptr_fields ++ cloned_vec_fields ++ cloned_indirect_fields.
+Definition subst_child_fields : list string := subst_ptr_fields ++ subst_vec_fields ++ subst_indirect_fields.
 Definition ast_child_fields : list string := ast_ptr_fields ++ ast_vec_fields ++ ast_indirect_fields.
 
-Definition keep_scalar (p : string * str) : bool := in_list (fst p) cloned_scalar_fields.
+(* A MatchArm (element of match_arms) is carried as a pseudo node of kind 9998 with the arm's own
+   members as scalars and its body as the child "body"; the member-wise copy loop of clone_ast_node
+   copies all four *)
+Definition arm_kind : N := 9998%N.
+Definition arm_fields : list string := ["pattern_type"; "variant_name"; "bindings"; "enum_type_name"]%string.
+Definition arms_copied : bool := in_list "match_arms" cloned_indirect_fields.
+Definition arms_visited : bool := in_list "match_arms" subst_indirect_fields.
+
+Definition copied_scalar_fields : list string :=
+  cloned_scalar_fields ++ (if arms_copied then arm_fields else []).
+(* every member name a well-formed tree can carry as a scalar *)
+Definition node_scalar_fields : list string := ast_scalar_fields ++ arm_fields.
+
+Definition keep_scalar (p : string * str) : bool := in_list (fst p) copied_scalar_fields.
 Definition keep_child (p : string * node) : bool := in_list (fst p) cloned_child_fields.
 
 (* clone_ast_node: a fresh ASTNode(node_type); the listed scalars copied; the listed children
@@ -212,7 +225,19 @@ Fixpoint clone (n : node) : node :=
 
 (* one rewritten string member, with the 3-way dispatch (use3) or the plain one, and the TypeInfo
    member recomputed from it when the new name is non-empty and has neither '<' nor '_' *)
-Definition rewrite_member (m : tmap) (f : string) (use3 : bool) (recompute : option string)
+Fixpoint split_nl (s cur : str) : list str :=
+  match s with
+  | [] => [cur]
+  | c :: r => if Ascii.eqb c c_nl then cur :: split_nl r [] else split_nl r (cur ++ [c])
+  end.
+
+(* a std::vector<std::string> member is carried as its elements joined by '\n'; absent = empty *)
+Definition strvec (s : str) : list str := match s with [] => [] | _ => split_nl s [] end.
+
+(* parse_type_from_string knows the name: a builtin type (or a typedef: none in the empty registry) *)
+Definition known_type (s : str) : bool := str_eqb s (s2l "int") || negb (str_eqb (parse_type s) (s2l "3")).
+
+Definition rewrite_member (m : tmap) (f : string) (use3 : bool) (recompute : option string) (guarded : bool)
            (sc : scalars) : scalars :=
   if negb (in_list f subst_string_fields) then sc else
   match sget f sc with
@@ -225,18 +250,52 @@ Definition rewrite_member (m : tmap) (f : string) (use3 : bool) (recompute : opt
       | Some g =>
           match new with
           | [] => sc1
-          | _ => if has_char c_lt new || has_char c_us new then sc1 else sset g (parse_type new) sc1
+          | _ => if has_char c_lt new || has_char c_us new then sc1
+                 else if guarded
+                      then (if negb (str_eqb new old) && known_type new then sset g (parse_type new) sc1 else sc1)
+                      else sset g (parse_type new) sc1
           end
       end
   end.
 
+(* new T: rewritten with the plain rewriting; new_type_info follows when the name changed and has no '<' *)
+Definition rewrite_new_type (m : tmap) (sc : scalars) : scalars :=
+  if negb (in_list "new_type_name" subst_string_fields) then sc else
+  match sget "new_type_name" sc with
+  | [] => sc
+  | old =>
+      let new := substitute_generic_type_name m old in
+      if str_eqb new old then sc
+      else let sc1 := sset "new_type_name" new sc in
+           if has_char c_lt new then sc1 else sset "new_type_info" (parse_type new) sc1
+  end.
+
+(* for (auto &x : node->f) x = substitute_generic_type_name(x, type_map);   (type_arguments) *)
+Definition rewrite_strvec (m : tmap) (f : string) (sc : scalars) : scalars :=
+  if negb (in_list f subst_strvec_fields) then sc else
+  match sget f sc with
+  | [] => sc
+  | v => sset f (join_with [c_nl] (map (substitute_generic_type_name m) (strvec v))) sc
+  end.
+
+(* arm.enum_type_name = substitute_generic_type_name(arm.enum_type_name, type_map), on the arm pseudo node *)
+Definition rewrite_arm (m : tmap) (sc : scalars) : scalars :=
+  if negb arms_visited then sc else
+  match sget "enum_type_name" sc with
+  | [] => sc
+  | old => sset "enum_type_name" (substitute_generic_type_name m old) sc
+  end.
+
 (* the scalar part of substitute_type_parameters, in the order of the C++ text *)
 Definition subst_scalars (m : tmap) (sc : scalars) : scalars :=
-  let sc := rewrite_member m "type_name" true (Some "type_info"%string) sc in
-  let sc := rewrite_member m "return_type_name" true None sc in
-  let sc := rewrite_member m "pointer_base_type_name" true (Some "pointer_base_type"%string) sc in
-  let sc := rewrite_member m "sizeof_type_name" false None sc in
-  rewrite_member m "cast_target_type" false None sc.
+  let sc := rewrite_member m "type_name" true (Some "type_info"%string) subst_type_info_guarded sc in
+  let sc := rewrite_member m "return_type_name" true None false sc in
+  let sc := rewrite_member m "pointer_base_type_name" true (Some "pointer_base_type"%string) false sc in
+  let sc := rewrite_member m "sizeof_type_name" false None false sc in
+  let sc := rewrite_member m "cast_target_type" false None false sc in
+  let sc := rewrite_new_type m sc in
+  let sc := rewrite_strvec m "type_arguments" sc in
+  rewrite_arm m sc.
 
 Definition visit_child (p : string * node) : bool := in_list (fst p) subst_child_fields.
 
@@ -249,15 +308,6 @@ Fixpoint subst_node (m : tmap) (n : node) : node :=
   end.
 
 (* ------------------------------------------------------------------ instantiate_generic_function *)
-Fixpoint split_nl (s cur : str) : list str :=
-  match s with
-  | [] => [cur]
-  | c :: r => if Ascii.eqb c c_nl then cur :: split_nl r [] else split_nl r (cur ++ [c])
-  end.
-
-(* a std::vector<std::string> member is carried as its elements joined by '\n'; absent = empty *)
-Definition strvec (s : str) : list str := match s with [] => [] | _ => split_nl s [] end.
-
 Definition build_map (tps targs : list str) : tmap :=
   fold_left (fun m p => p :: m) (combine tps targs) [].
 
